@@ -15,8 +15,12 @@
 EXTENDS Integers, Sequences, FiniteSets
 
 \* id:  1 a   2 b   3 space  4 newline  5 wide  6 zero-width  7 ellipsis  8 '.'  9 e-acute
-\*     10 wide  11 wide (4-byte)  12 zero-width  13 ellipsis as a double-byte (two column) character
-CW == <<1, 1, 1, 0, 2, 0, 1, 1, 1, 2, 2, 0, 2>>
+\*     10 wide  11 wide (4-byte in utf8)  12 zero-width  13 ellipsis as a double-byte (two column) character
+\*     14 15 wide (double-byte encodings: further lead / second byte ranges)
+\*     16 zero-width joiner  17 variation selector 16  18 narrow symbol  19 20 regional indicators (wide)
+\* A character's width is its own (one character at a time): a joiner, a variation selector or a pair of
+\* regional indicators does not change what its neighbours occupy.
+CW == <<1, 1, 1, 0, 2, 0, 1, 1, 1, 2, 2, 0, 2, 2, 2, 0, 0, 1, 2, 2>>
 NCls == Len(CW)
 SP == 3
 NL == 4
@@ -252,6 +256,18 @@ RowsEqualLines(rows, packrows, rend) == rows = Len(rend) /\ packrows = Len(rend)
 (* 8. "Text that cannot be displayed at all (...) produces an empty line rather than an error":    *)
 (*    the one-empty-line layout is acceptable for such a text and for no other.                   *)
 UndisplayableIsEmptyLine(t, w, lay) == lay = EmptyLayout => Undisplayable(t, w)
+
+(* 9. The Text widget: "for every ... wrap mode and alignment" on a widget that lives - the modes    *)
+(*    and the text in force are those set last, whichever mutator set them; every answer (rows,    *)
+(*    pack, render) is judged against that state, whatever was rendered and is still referenced.   *)
+(*    s = [align, wrap, text]; op names the mutator of the step, a / wr / t its arguments.          *)
+WidgetApply(s, op, a, wr, t) ==
+  CASE op = "layout" -> [s EXCEPT !.align = a, !.wrap = wr]        \* Text.set_layout(align, wrap)
+    [] op = "align"  -> [s EXCEPT !.align = a]                     \* Text.set_align_mode / .align
+    [] op = "wrap"   -> [s EXCEPT !.wrap = wr]                     \* Text.set_wrap_mode / .wrap
+    [] op = "text"   -> [s EXCEPT !.text = t]                      \* Text.set_text
+    [] OTHER         -> s                                          \* queries only
+ModesReported(s, got) == got = << s.align, s.wrap >>
 
 \* the contract on the layout structure alone
 ValidLayout(t, w, wrap, align, mm, lay) ==
